@@ -1153,5 +1153,25 @@ theorem eqQuotientRows_ok (concs : List (List α)) (stoich : List Int) (qs : Lis
   simp only [List.get_eq_getElem] at this
   exact eqQuotient_ok _ _ _ this
 
+/-! ### round 9: NaN entries -/
+
+theorem tooMuchNan_map_some (rtol : α) : ∀ (x : List α) (ub : List (Option α)),
+    tooMuchNan rtol (x.map some) ub = tooMuch rtol x ub
+  | [], _ => by simp [tooMuchNan, tooMuch]
+  | _ :: _, [] => by simp [tooMuchNan, tooMuch]
+  | x :: xs, b :: bs => by
+    simp only [List.map_cons, tooMuchNan, tooMuch, tooMuchNan_map_some rtol xs bs]
+    cases b <;> rfl
+
+/-- on arrays without NaN the NaN-aware model is the plain one -/
+theorem resultIsSaneNan_map_some (rtol : α) (comps : List (Comp α)) (init x : List α) :
+    resultIsSaneNan rtol comps init (x.map some) = resultIsSane rtol comps init x := by
+  unfold resultIsSaneNan resultIsSane
+  cases upperConcBounds comps init with
+  | error e => rfl
+  | ok ub =>
+    simp only [bind, Except.bind, List.length_map, tooMuchNan_map_some, List.any_map]
+    rfl
+
 end ChemModel.EqSolve
 
